@@ -33,6 +33,17 @@ struct A_ : state_machine_def<A_> {
   template<class Fsm,class Ev> void no_transition(Ev const&,Fsm&,int){ ++g_nt; }
 };
 typedef BE<A_> A;
+// the same deferral written as a state-local internal row (functor Internal<E, Defer>): must behave like the Row<Busy,E,none,Defer> above (C14)
+#if !defined(CFG_back11)
+struct AI_ : state_machine_def<AI_> {
+  typedef int activate_deferred_events;
+  struct Busy : state<> { struct internal_transition_table : mpl::vector< Internal<E,Defer,none> > {}; }; struct Idle : state<> {};
+  typedef Busy initial_state;
+  struct transition_table : mpl::vector< Row<Busy,G,Idle,none,none>, Row<Idle,E,none,LogE,none> > {};
+  template<class Fsm,class Ev> void no_transition(Ev const&,Fsm&,int){ ++g_nt; }
+};
+typedef BE<AI_> AI;
+#endif
 static std::string vs(const std::vector<int>& v){ std::string s; for (int x : v) s += std::to_string(x) + " "; return s; }
 int main(int argc, char** argv) {
   if (argc > 1) g_only = argv[1];
@@ -64,5 +75,11 @@ int main(int argc, char** argv) {
     bool ok = held && g_nt == 0 && (int)g_seen.size() == n; for (int i = 0; ok && i < n; ++i) ok = g_seen[i] == i + 1;
     report("action-defer.order.n" + std::to_string(n), ok, "C05,C13", "seen=[" + vs(g_seen) + "] nt=" + std::to_string(g_nt));
   }
+#if !defined(CFG_back11)
+  { AI m; m.start(); g_seen.clear(); g_nt = 0; int r = (int)m.process_event(E(1));
+    bool held = g_seen.empty() && g_nt == 0;
+    m.process_event(G());
+    report("internal-row-defer.retained-and-re-offered", held && g_nt == 0 && g_seen.size() == 1 && g_seen[0] == 1 && (r & 4), "C14,C05", "ret=" + std::to_string(r) + " seen=[" + vs(g_seen) + "] nt=" + std::to_string(g_nt)); }
+#endif
   return finish();
 }
